@@ -136,7 +136,7 @@ func init() {
 		ID:     "C06",
 		Level:  "other",
 		Funcs:  []string{"tcell.(*tScreen).finish", "tcell.(*tScreen).Show", "tcell.(*tScreen).Sync", "tcell.(*tScreen).engage", "tcell.(*baseScreen).ChannelEvents", "tcell.(*baseScreen).PollEvent"},
-		Custom: []func(*PropRun){c06Discipline, c06Replays},
+		Custom: []func(*PropRun){c06Discipline, c06Replays, c06LifecycleSmoke},
 		Trusted: []string{"Tty contract: Drain wakes a pending Read, which then returns; Stop/Close return (assumed; the tty is outside the verified code)",
 			"a goroutine that is not blocked on a channel operation, the screen lock or the tty runs to completion (no other blocking primitives in the waited-for goroutines: checked syntactically for channel operations only)"},
 		Assume: []string{"level 'other': a sufficient discipline over the goroutines disengage waits for, not a proof over interleavings; bounded time is not quantified",
